@@ -2,17 +2,16 @@
 
 package util
 
-// Contracts for the verifier in /verif (comment-only; not part of any build
-// without the tag, and empty of code with it).
+// Contracts for the verifier in /verif (comment-only; see /verif/DESIGN.md).
 
 /*@
 func Uint64AsBytes
-  props C04 C13 C15
+  props C04 C12 C13 C15
   ensures len(result) == 8 && fresh(result)
   ensures bytes(result) == be64(i)
 
 func Uint16AsBytes
-  props C04 C13
+  props C04 C12 C13
   ensures len(result) == 2 && fresh(result)
   ensures bytes(result) == be16(i)
 
@@ -20,4 +19,26 @@ func BytesAsUint64
   props C05 C13 C15
   requires len(b) >= 8
   ensures be64(result) == bytes(b[0:8])
+
+func BytesAsUint16
+  props C13
+  requires len(b) >= 2
+  ensures be16(result) == bytes(b[0:2])
+
+// AddPaddingToBytes is only total when the input is either "long enough"
+// (len/8 >= n: returned as is) or not longer than n (left-padded to n bytes).
+func AddPaddingToBytes
+  props C12 C13
+  requires len(b) / 8 >= n || len(b) <= n
+  requires n <= 1073741824
+  ensures len(b) / 8 >= n ==> result == b
+  ensures len(b) / 8 < n ==> len(result) == n && fresh(result)
+
+func Uint64AsPaddedBytes
+  props C12 C13
+  requires n <= 1 || n >= 8
+  requires n <= 1073741824
+  ensures n <= 1 ==> len(result) == 8
+  ensures n >= 8 ==> len(result) == n
+  ensures fresh(result)
 @*/
